@@ -81,6 +81,7 @@ type verifSim struct {
 	cut      map[[2]ch.NodeID]bool // directed link dead
 	dropReq  map[verifSimLinkKey]int
 	dropResp map[verifSimLinkKey]int
+	dropSkip map[verifSimLinkKey]int // deliveries to let through before an armed drop starts
 	delivered map[ExchangeKind]int
 
 	hist []string
@@ -105,7 +106,7 @@ func verifSimChannelID(c int) ch.ChannelID { return ch.ChannelID{ID: fmt.Sprintf
 func verifSimChannelKey(c int) ch.ChannelKey { return ch.ChannelKeyForID(verifSimChannelID(c)) }
 
 func newVerifSim(t verifSimFataler, cfg verifSimConfig) *verifSim {
-	s := &verifSim{t: t, cfg: cfg, cut: map[[2]ch.NodeID]bool{}, dropReq: map[verifSimLinkKey]int{}, dropResp: map[verifSimLinkKey]int{},
+	s := &verifSim{t: t, cfg: cfg, cut: map[[2]ch.NodeID]bool{}, dropReq: map[verifSimLinkKey]int{}, dropResp: map[verifSimLinkKey]int{}, dropSkip: map[verifSimLinkKey]int{},
 		delivered: map[ExchangeKind]int{}, flags: map[string]bool{}, nextMsgID: 1000, nextCmd: 1}
 	for i := 1; i <= cfg.N; i++ {
 		n := &verifSimNode{id: ch.NodeID(i), installed: map[int]Authority{}, attempted: map[int]Authority{}}
@@ -213,6 +214,13 @@ func (l verifSimLink) Exchange(ctx context.Context, target ch.NodeID, batch Exch
 		return ExchangeBatchResult{}, errVerifSimLink
 	}
 	key := verifSimLinkKey{target: target, kind: kind}
+	if s.dropSkip[key] > 0 && (s.dropReq[key] > 0 || s.dropResp[key] > 0) {
+		s.dropSkip[key]--
+		server := tgt.rt.ExchangeServer()
+		s.delivered[kind]++
+		s.mu.Unlock()
+		return server.Handle(ctx, l.from, batch)
+	}
 	if s.dropReq[key] > 0 {
 		s.dropReq[key]--
 		s.mu.Unlock()
@@ -328,8 +336,16 @@ func (s *verifSim) healAll() {
 	s.cut = map[[2]ch.NodeID]bool{}
 	s.dropReq = map[verifSimLinkKey]int{}
 	s.dropResp = map[verifSimLinkKey]int{}
+	s.dropSkip = map[verifSimLinkKey]int{}
 	s.mu.Unlock()
 	s.logf("heal all links")
+}
+
+func (s *verifSim) armDropAfter(target ch.NodeID, kind ExchangeKind, response bool, skip, count int) {
+	s.mu.Lock()
+	s.dropSkip[verifSimLinkKey{target, kind}] = skip
+	s.mu.Unlock()
+	s.armDrop(target, kind, response, count)
 }
 
 func (s *verifSim) armDrop(target ch.NodeID, kind ExchangeKind, response bool, count int) {
